@@ -39,31 +39,31 @@ Print Assumptions C04_commit_own_term_on_quorum.
    its rules): whenever a candidate of term t holds the votes of a majority and no leadership of
    t exists yet (the moment it becomes leader), its log already agrees, through position i, with
    the log of every earlier leadership t0 < t that committed position i. *)
-Theorem C04_new_leader_holds_committed : forall vs s c t i e t0,
-  Safety.sreach vs s ->
-  Safety.tm s c = t -> Safety.cnd s c = true -> LogMatching.active (Safety.sg s) t = false -> Safety.majority vs (Safety.voted_for s t c) ->
+Theorem C04_new_leader_holds_committed : forall vs vo s c t i e t0,
+  Safety.sreach vs vo s ->
+  Safety.tm s c = t -> Safety.cnd s c = true -> LogMatching.active (Safety.sg s) t = false -> Safety.majority vs vo (Safety.voted_for s t c) ->
   In (i, e, t0) (Safety.commits s) -> (t0 < t)%N ->
   LogMatching.agree (S i) (Safety.nlog s c) (Safety.L s t0).
 Proof.
-  intros vs s c t i e t0 R. exact (Safety.cand_has_committed vs s c t i e t0 (Safety.sreach_sinv vs s R)).
+  intros vs vo s c t i e t0 R. exact (Safety.cand_has_committed vs vo s c t i e t0 (Safety.sreach_sinv vs vo s R)).
 Qed.
 Print Assumptions C04_new_leader_holds_committed.
 
 (* ... and every later leadership's log keeps holding it, at the same position *)
-Theorem C04_leader_completeness_protocol : forall vs s i e t,
-  Safety.sreach vs s -> In (i, e, t) (Safety.commits s) ->
+Theorem C04_leader_completeness_protocol : forall vs vo s i e t,
+  Safety.sreach vs vo s -> In (i, e, t) (Safety.commits s) ->
   forall t' j x, LogMatching.active (Safety.sg s) t' = true -> (t < t')%N -> (j <= i)%nat ->
     nth_error (Safety.L s t) j = Some x -> nth_error (Safety.L s t') j = Some x.
 Proof.
-  intros vs s i e t R. exact (Safety.leader_completeness vs s i e t (Safety.sreach_sinv vs s R)).
+  intros vs vo s i e t R. exact (Safety.leader_completeness vs vo s i e t (Safety.sreach_sinv vs vo s R)).
 Qed.
 Print Assumptions C04_leader_completeness_protocol.
 
 (* no leader overwrites or truncates such an entry on a follower: a node whose log agrees with a
    committing leadership through j still does after any step in which it keeps position j at all
    (only its own crash can take an unacknowledged suffix away) *)
-Theorem C04_followers_keep_committed : forall vs s s' m j t,
-  Safety.SInv vs s -> Safety.sstep vs s s' -> Safety.can_learn s m j t ->
+Theorem C04_followers_keep_committed : forall vs vo s s' m j t,
+  Safety.SInv vs vo s -> Safety.sstep vs vo s s' -> Safety.can_learn s m j t ->
   (S j <= length (Safety.nlog s' m))%nat -> Safety.can_learn s' m j t.
 Proof. exact Safety.can_learn_stable. Qed.
 Print Assumptions C04_followers_keep_committed.
